@@ -15,11 +15,14 @@ def x86_queries(tier):
             ls = lens[i:i + chunk]
             qs.append(Query("x86/%s/len%d-%d" % (var, ls[0], ls[-1]), R, dict(variant=var, lens=ls, offsets=offs),
                             core=(i == 0), family="x86/" + var, weight=ls[-1]))
+    for var in ("sse", "avx", "avx2", "avx512"):
+        qs.append(Query("x86/%s/huge-len-probe" % var, "harness.C20.x86:huge_len_probe", dict(variant=var, lows=[0, 1, 200, 4096 + 77], off=3, budget=30000),
+                        core=True, family="x86/huge-len-probe", weight=50))
     info = dict(
         functions_encoded=["mem_zero_detect_sse", "mem_zero_detect_avx", "mem_zero_detect_avx2", "mem_zero_detect_avx512 (machine code: nasm -> ld -> objdump)"],
         bounds={"len": "every value 0..%d" % maxlen, "alignment offsets (buf mod 64)": offs,
                 "data": "all len bytes symbolic; every feasible path explored (fork on each ptest/ktest/jcc on data)"},
         stubs=[], assumptions=["x86 instruction semantics of vlib/x86sym (validated each run against native execution of the same object on concrete inputs)",
                                "SysV ABI call; buffer region exactly [buf, buf+len), everything else unmapped"],
-        outside=["len > %d (periodicity of the main loop is not proved)" % maxlen])
+        outside=["len > %d (periodicity of the main loop is not proved), except that truncation of the 64-bit length is probed at len = 2^32 + {0,1,200,4173} (huge-len-probe: no path may return 0 having read fewer than len bytes within a 30000-instruction budget)" % maxlen])
     return qs, info
